@@ -1,6 +1,7 @@
 package props
 
 import (
+	"fmt"
 	"regexp"
 	"strings"
 
@@ -55,4 +56,206 @@ func sameSet(a, b []string) bool {
 		}
 	}
 	return true
+}
+
+// funcValueTarget resolves a function-typed SSA value (a function, a closure, a bound method
+// value) to the function that will run.
+func funcValueTarget(v ssa.Value) *ssa.Function {
+	switch x := core.StripConv(v).(type) {
+	case *ssa.Function:
+		return boundTarget(x)
+	case *ssa.MakeClosure:
+		if f, ok := x.Fn.(*ssa.Function); ok {
+			return boundTarget(f)
+		}
+	}
+	return nil
+}
+
+// boundTarget: for a synthetic bound-method wrapper (x.m as a value) the wrapped method.
+func boundTarget(f *ssa.Function) *ssa.Function {
+	if f == nil || f.Synthetic == "" || len(f.Blocks) != 1 {
+		return f
+	}
+	for _, in := range f.Blocks[0].Instrs {
+		if c, ok := in.(*ssa.Call); ok {
+			if callee := c.Call.StaticCallee(); callee != nil {
+				return callee
+			}
+		}
+	}
+	return f
+}
+
+// walkHandlers returns the inlined visit and exit callbacks that DomConverter.Convert hands to
+// WalkNodes, whatever they are called.
+func walkHandlers(p *core.Program, r *core.Report, rule string) (visit, exit *ssa.Function) {
+	conv := mustFunc(p, r, rule, "(*"+converterPkg+".DomConverter).Convert")
+	if conv == nil {
+		return nil, nil
+	}
+	conv = p.Inlined(conv)
+	walks := core.Calls(conv, func(ci ssa.CallInstruction) bool { return core.IsCallTo(ci, "mod/internal/domutil.WalkNodes") })
+	if len(walks) != 1 || len(walks[0].Common().Args) != 3 {
+		r.Undecided(rule, "Convert walks the clone once", fmt.Sprintf("expected one WalkNodes(root, visit, exit) call in Convert, found %d", len(walks)))
+		return nil, nil
+	}
+	v := funcValueTarget(walks[0].Common().Args[1])
+	e := funcValueTarget(walks[0].Common().Args[2])
+	if v == nil || e == nil || len(v.Blocks) == 0 || len(e.Blocks) == 0 {
+		r.Undecided(rule, "Convert's walk callbacks", "the visit/exit callbacks handed to WalkNodes cannot be resolved to functions")
+		return nil, nil
+	}
+	return p.Inlined(v), p.Inlined(e)
+}
+
+// inRegion reports whether fn is root or one of the helpers expanded into it.
+func inRegion(p *core.Program, root, fn *ssa.Function) bool {
+	for _, f := range p.Region(root) {
+		if f == p.Original(fn) {
+			return true
+		}
+	}
+	return false
+}
+
+// instrsOf lists the instructions of fn in block order.
+func instrsOf(fn *ssa.Function) []ssa.Instruction {
+	var out []ssa.Instruction
+	for _, b := range fn.Blocks {
+		out = append(out, b.Instrs...)
+	}
+	return out
+}
+
+// mustInl resolves an anchor function and returns its inlined clone (unexported helpers expanded).
+func mustInl(p *core.Program, r *core.Report, rule, key string) *ssa.Function {
+	fn := mustFunc(p, r, rule, key)
+	if fn == nil {
+		return nil
+	}
+	return p.Inlined(fn)
+}
+
+// consistentWith selects the decision paths on which every test `<subject> == "x"` has the value
+// it has when the subject is val (if/switch/table-free way of asking "what happens for val").
+func consistentWith(paths []core.DecisionPath, subject, val string) []core.DecisionPath {
+	pre := subject + ` == "`
+	var out []core.DecisionPath
+	for _, pa := range paths {
+		ok := true
+		for _, l := range pa.Lits {
+			if strings.HasPrefix(l.Atom, pre) && strings.HasSuffix(l.Atom, `"`) {
+				x := strings.TrimSuffix(strings.TrimPrefix(l.Atom, pre), `"`)
+				if l.Val != (x == val) {
+					ok = false
+				}
+			}
+		}
+		if ok {
+			out = append(out, pa)
+		}
+	}
+	return out
+}
+
+// returnPaths enumerates the decision paths of fn with `return <canonical results>` outcomes.
+func returnPaths(p *core.Program, fn *ssa.Function, max int) ([]core.DecisionPath, map[string]bool, error) {
+	return core.EnumerateDecisions(p, fn, core.DecisionOpts{MaxPaths: max, Outcome: func(in ssa.Instruction, c *core.Canon) (string, bool) {
+		if ret, ok := in.(*ssa.Return); ok {
+			var s []string
+			for _, x := range ret.Results {
+				s = append(s, c.Of(x))
+			}
+			return "return " + strings.Join(s, ","), true
+		}
+		return "", false
+	}})
+}
+
+// closuresOf lists the anonymous functions created in fn (MakeClosure or plain function values).
+func closuresOf(fn *ssa.Function) []*ssa.Function {
+	var out []*ssa.Function
+	seen := map[*ssa.Function]bool{}
+	for _, in := range instrsOf(fn) {
+		for _, op := range in.Operands(nil) {
+			if *op == nil {
+				continue
+			}
+			var f *ssa.Function
+			switch x := (*op).(type) {
+			case *ssa.MakeClosure:
+				f, _ = x.Fn.(*ssa.Function)
+			case *ssa.Function:
+				if x.Parent() != nil {
+					f = x
+				}
+			}
+			if f != nil && !seen[f] {
+				seen[f] = true
+				out = append(out, f)
+			}
+		}
+		if mc, ok := in.(*ssa.MakeClosure); ok {
+			if f, ok := mc.Fn.(*ssa.Function); ok && !seen[f] {
+				seen[f] = true
+				out = append(out, f)
+			}
+		}
+	}
+	return out
+}
+
+// flowsToReturn reports whether the value can reach a returned value of its function through
+// copies, phis, appends, slices, conversions and stores into local arrays/variables.
+func flowsToReturn(v ssa.Value) bool {
+	seen := map[ssa.Value]bool{}
+	var rec func(x ssa.Value) bool
+	rec = func(x ssa.Value) bool {
+		if x == nil || seen[x] {
+			return false
+		}
+		seen[x] = true
+		refs := x.Referrers()
+		if refs == nil {
+			return false
+		}
+		for _, ref := range *refs {
+			switch y := ref.(type) {
+			case *ssa.Return:
+				return true
+			case *ssa.Store:
+				if y.Val == x {
+					// into a local array slot or variable: follow the base allocation
+					base := y.Addr
+					for {
+						switch b := base.(type) {
+						case *ssa.IndexAddr:
+							base = b.X
+							continue
+						case *ssa.FieldAddr:
+							base = b.X
+							continue
+						}
+						break
+					}
+					if al, ok := base.(*ssa.Alloc); ok && rec(al) {
+						return true
+					}
+				}
+			case *ssa.Call:
+				if b, ok := y.Call.Value.(*ssa.Builtin); ok && (b.Name() == "append" || b.Name() == "copy") {
+					if rec(y) {
+						return true
+					}
+				}
+			case *ssa.Phi, *ssa.Slice, *ssa.Convert, *ssa.ChangeType, *ssa.MakeInterface, *ssa.UnOp, *ssa.Extract, *ssa.IndexAddr, *ssa.Index, *ssa.Lookup, *ssa.Next, *ssa.Range:
+				if rec(y.(ssa.Value)) {
+					return true
+				}
+			}
+		}
+		return false
+	}
+	return rec(v)
 }
